@@ -9,6 +9,31 @@ QUICK_SAMPLE = {"read": 9000, "write": 9000, "keys": 2000}
 THOROUGH_SAMPLE = {}
 
 
+ALPHABET = ([{"k": "inst", "v": "a"}, {"k": "inst", "v": "operations"}, {"k": "inst", "v": "."}, {"k": "kw", "v": "blobs"}, {"k": "kw", "v": "compressed-blobs"}, {"k": "kw", "v": "uploads"},
+             {"k": "comp", "v": "zstd"}, {"k": "comp", "v": "bogus"}, {"k": "comp", "v": "identity"}, {"k": "fn", "v": "sha256tree"}, {"k": "fn", "v": "gitsha1"},
+             {"k": "fn", "v": "sha256"}, {"k": "fn", "v": "nope"}, {"k": "uuid", "v": "u"}, {"k": "path", "v": "foo.txt"}, {"k": "empty", "v": ""}]
+            + [{"k": "hash", "v": h} for h in ("h32", "h40", "h64", "h96", "h128", "h10", "H64", "x64")]
+            + [{"k": "size", "v": s} for s in ("s0", "s123", "smax", "sneg", "sabc", "sexp", "sover", "splus", "szero7")])
+
+
+def double_mutation(case, rng):
+    """One more mutation (the operators of Digests.tla: delete, replace, insert, swap, truncate) of an enumerated case."""
+    toks = list(case["toks"])
+    op = rng.choice(["delete", "replace", "insert", "swap", "truncate"])
+    if op == "delete" and toks:
+        del toks[rng.randrange(len(toks))]
+    elif op == "replace" and toks:
+        toks[rng.randrange(len(toks))] = dict(rng.choice(ALPHABET))
+    elif op == "insert":
+        toks.insert(rng.randrange(len(toks) + 1), dict(rng.choice(ALPHABET)))
+    elif op == "swap" and len(toks) > 1:
+        i = rng.randrange(len(toks) - 1)
+        toks[i], toks[i + 1] = toks[i + 1], toks[i]
+    else:
+        toks = toks[:rng.randrange(len(toks) + 1)]
+    return {"kind": case["kind"], "toks": toks}
+
+
 def dig_cfg(part, muts=1, emit=True):
     return 'INIT Init\nNEXT Next\nCONSTANTS\n Part = "%s"\n Muts = %d\nINVARIANTS Sane%s\n' % (part, muts, " Emit" if emit else "")
 
@@ -31,18 +56,18 @@ def check(pid, tier, replay=None):
         vlib.require_model_ok(r, "Digests " + part)
         states += r.distinct
         n_all = len(cases)
-        if not quick and part in ("read", "write"):
-            # double mutations of the skeletons: a seeded sample
-            extra = []
-            keep = 0.004 if part == "read" else 0.002
-            r2 = vlib.run_tlc("Digests", dig_cfg(part, muts=2), raw_sink=lambda m, raw: extra.append(raw) if rng.random() < keep else None, timeout=3400)
-            vlib.require_model_ok(r2, "Digests %s (double mutations)" % part)
-            states += r2.distinct
-            details[part + "_double_mutations"] = {"cases": r2.distinct, "sampled": len(extra)}
-            cases += extra
+        if part in ("read", "write"):
+            # second-order mutations: a seeded sample, produced here from the single mutations TLC enumerated (the
+            # grammar's verdict on them is computed by the TLC monitor from the tokens, like for every other case)
+            extra = [json.dumps(double_mutation(json.loads(rng.choice(cases)), rng)) for _ in range(1500 if quick else 120000)]
+            details[part + "_double_mutations"] = {"sampled": len(extra)}
+            doubles = extra
+        else:
+            doubles = []
         cap = (QUICK_SAMPLE if quick else THOROUGH_SAMPLE).get(part)
         if cap and len(cases) > cap:
             cases = rng.sample(cases, cap)
+        cases = cases + doubles
         details[part] = {"cases_enumerated": n_all, "executed": len(cases)}
         executed[part] = len(cases)
         cp = os.path.join(work, part + "_cases.ndjson")
